@@ -384,3 +384,54 @@ Example joiner_duplicate_before_D26 :
   (* the repaired code refuses, and everybody ends up with the one actor *)
   snd (run 2 init ops) = [RPid 0; RNil; RNil; RNil] /\ views 2 1 (fst (run 2 init ops)) = [[1]; [1]; [1]].
 Proof. vm_compute. repeat split; reflexivity. Qed.
+
+(** ** No second actor under a known id, also while the join is spreading (uses the asked
+    member's check of the repair D26) *)
+Lemma act_refused_if_known m s who k sel h :
+  Inv m s -> (forall i, i < m -> omaps s i k = Some h) -> snd (step m s (Act who k sel)) = RNil.
+Proof.
+  intros I Hk. unfold step, step_gen. cbn [andb].
+  destruct (Nat.ltb who m) eqn:Hw.
+  - apply Nat.ltb_lt in Hw. rewrite (Hk who Hw). reflexivity.
+  - destruct (Nat.eqb who m); [|reflexivity]. destruct (jmap s k); [reflexivity|].
+    destruct (jtold s); cbn [negb]; [|reflexivity].
+    destruct (Nat.ltb sel m) eqn:Hs; cbn [negb]; [|reflexivity]. apply Nat.ltb_lt in Hs.
+    rewrite (Hk sel Hs). reflexivity.
+Qed.
+
+Lemma run_refuses_known m ops s k h n who sel :
+  Inv m s -> (forall i, i < m -> omaps s i k = Some h) ->
+  nth_error ops n = Some (Act who k sel) -> nth_error (snd (run m s ops)) n = Some RNil.
+Proof.
+  revert s n; induction ops as [|o ops IH]; intros s n I Hk Hn; [destruct n; discriminate|].
+  cbn. pose proof (Inv_step m s o I) as I1.
+  assert (Hk1 : forall i, i < m -> omaps (fst (step m s o)) i k = Some h).
+  { intros i Hi. apply step_mono; [exact I|exact Hi|apply Hk; exact Hi]. }
+  destruct (step m s o) as [s1 x] eqn:Hs. cbn in I1, Hk1.
+  destruct (run m s1 ops) as [s2 xs] eqn:Hr. cbn.
+  destruct n as [|n].
+  - cbn in Hn |- *. inversion Hn; subst o.
+    pose proof (act_refused_if_known m s who k sel h I Hk) as Hx. rewrite Hs in Hx. cbn in Hx. rewrite Hx. reflexivity.
+  - cbn in Hn |- *. specialize (IH s1 n I1 Hk1 Hn). rewrite Hr in IH. exact IH.
+Qed.
+
+Theorem join_spread_no_second_activation m ops n1 n2 who1 who2 k sel1 sel2 h :
+  n1 < n2 ->
+  nth_error ops n1 = Some (Act who1 k sel1) -> nth_error (snd (run m init ops)) n1 = Some (RPid h) ->
+  nth_error ops n2 = Some (Act who2 k sel2) -> nth_error (snd (run m init ops)) n2 = Some RNil.
+Proof.
+  generalize (Inv_init m). generalize init as s. revert n1 n2.
+  induction ops as [|o ops IH]; intros n1 n2 s I Hlt H1 R1 H2; [destruct n1; discriminate|].
+  cbn in R1 |- *. pose proof (Inv_step m s o I) as I1.
+  destruct (step m s o) as [s1 x] eqn:Hs. cbn in I1.
+  destruct (run m s1 ops) as [s2 xs] eqn:Hr. cbn in R1 |- *.
+  destruct n2 as [|n2]; [lia|]. cbn in H2 |- *.
+  destruct n1 as [|n1].
+  - cbn in H1, R1. inversion H1; subst o. inversion R1; subst x.
+    assert (Hk : forall i, i < m -> omaps s1 i k = Some h).
+    { intros i Hi. replace s1 with (fst (step m s (Act who1 k sel1))) by (rewrite Hs; reflexivity).
+      apply act_enters; [exact I|rewrite Hs; reflexivity|exact Hi]. }
+    pose proof (run_refuses_known m ops s1 k h n2 who2 sel2 I1 Hk H2) as Hx. rewrite Hr in Hx. exact Hx.
+  - cbn in H1, R1. assert (Hlt' : n1 < n2) by lia.
+    specialize (IH n1 n2 s1 I1 Hlt' H1). rewrite Hr in IH. cbn in IH. exact (IH R1 H2).
+Qed.
